@@ -647,6 +647,42 @@ fn grace_cmd(_args: &[String]) -> Value {
     json!({"scenarios": res, "violations": viol, "fresh_poller_within_grace": verif_poller::fresh_poller_within_grace()})
 }
 
+/// C13 "the PHC error bound is added exactly when the configured reference id matches the report's": the id as the
+/// operator configures it (a string, through the CLI's own parser refid_to_u32) against the id chronyd reports
+/// (the four ASCII bytes, most significant first, as `chronyc tracking` shows it). Case matters.
+fn refid_cmd() -> Value {
+    let names = ["PHC0", "phc0", "Phc0", "PHC1", "GPS", "gps", "A", "ab12", "PHC"];
+    let wire = |s: &str| -> u32 { s.bytes().fold(0u32, |acc, b| (acc << 8) | b as u32) };
+    let mut rows = vec![];
+    let mut viol = vec![];
+    for cfg in names {
+        let Ok(id) = clock_bound_d::refid_to_u32(cfg) else {
+            viol.push(json!({"property": "C13", "signature": "refid-rejected", "what": format!("refid_to_u32({cfg:?}) rejected a valid reference id")}));
+            continue;
+        };
+        for rep in names {
+            let path = scratch_path(&format!("refid_{cfg}_{rep}"));
+            let phc_file = path.with_extension("phc");
+            std::fs::write(&phc_file, "777\n").unwrap();
+            let info = PhcInfo { refid: id, sysfs_error_bound_path: phc_file.clone() };
+            let t = tracking(0, SystemTime::now(), cf(0, -30), cf(0, -30), cf(1, -7), 16.0, wire(rep));
+            let r = poll_once(0, Script { reply: Some(t), now_at_query: 0, grace: false }, Some(info));
+            let _ = std::fs::remove_file(&phc_file);
+            cleanup(&path);
+            let phc = match &r {
+                Ok(Message::ClockErrorBoundData((_, p, _))) => Some(*p),
+                _ => None,
+            };
+            let want = if cfg == rep { 777 } else { 0 };
+            rows.push(json!({"configured": cfg, "reported": rep, "phc_in_message": phc}));
+            if phc != Some(want) {
+                viol.push(json!({"property": "C13", "signature": "refid-match", "what": format!("configured reference id {cfg:?}, chronyd reports {rep:?}: message carries PHC error bound {phc:?}, expected {want}")}));
+            }
+        }
+    }
+    json!({"rows": rows, "violations": viol})
+}
+
 fn main() {
     let args: Vec<String> = std::env::args().collect();
     std::panic::set_hook(Box::new(|i| {
@@ -659,6 +695,7 @@ fn main() {
         Some("class") => class_cmd(&args),
         Some("replay") => replay_cmd(&args),
         Some("grace") => grace_cmd(&args),
+        Some("refid") => refid_cmd(),
         _ => {
             eprintln!("usage: daemon bound|class|replay|grace ...");
             std::process::exit(2)
